@@ -235,7 +235,10 @@ def run(rep) -> None:
             todo.append({"values": it["values"], "null": k % 3 == 0, "inline": k % 2 == 0})
         ints = [list(p) for n in (1, 2, 3) for p in itertools.permutations([-1, 0, 1, 2], n)]
         todo += [{"values": v, "null": i % 2 == 0, "inline": i % 3 == 0} for i, v in enumerate(ints)]
-        todo += [{"values": v, "null": False, "inline": False} for v in (["a", "a"], [1, 1], ["x"], [0], ["", "a"], ["A", "a"], ["a b", "a-b"], ["1a", "2b"], ["a", "b", "c"], ["true", "false", "null"], ['12"', "a"], ['say "hi"', "bye"], ["it's", "x"], ['"', "'"], ["a'b\"c", "d"], ["None", "True"])]
+        todo += [{"values": v, "null": False, "inline": False} for v in (["a", "a"], [1, 1], ["x"], [0], ["", "a"], ["A", "a"], ["a b", "a-b"], ["1a", "2b"], ["a", "b", "c"], ["true", "false", "null"], ['12"', "a"], ['say "hi"', "bye"], ["it's", "x"], ['"', "'"], ["a'b\"c", "d"], ["None", "True"],
+                                                                      # characters outside ASCII / the BMP, combining marks, separators, controls: the value is data, member for member
+                                                                      ["\U0001F44D", "x"], ["\U0001D4B3", "y"], ["a\u0301", "b"], ["\u00e9", "e"], ["\u65e5\u672c", "x"], ["\u2028", "x"],
+                                                                      ["tab\there", "x"], ["back\\slash", "x"], ["new\nline", "x"], ["\u200b", "zw"], ["\ud7ff", "\ue000"], ["\x7f", "del"])]
         build_and_run(rep, todo, d, False, "c")
         build_and_run(rep, todo, d, True, "l")
         consts(rep, d)
